@@ -843,6 +843,38 @@ class RefQuals:
                 out.append(its.pop(0) if front else its.pop())
                 front = not front
             return show_pairs(out)
+        if n == "it":
+            # any calls on one double-ended iterator over the sorted pairs, then what is left in it
+            rem, outs, sc, j = self.items(), [], a[2], 0
+            show = lambda kv: "~" if kv is None else "%s=%s" % (hx(kv[0]), hx(kv[1]))
+            while j < len(sc):
+                c = sc[j]
+                j += 1
+                k0 = j
+                while c in "tu" and j < len(sc) and sc[j].isdigit():
+                    j += 1
+                cnt = int(sc[k0:j]) if j > k0 else 0
+                if c == "n":
+                    outs.append(show(rem.pop(0) if rem else None))
+                elif c == "b":
+                    outs.append(show(rem.pop() if rem else None))
+                elif c == "t":
+                    if cnt < len(rem):
+                        outs.append(show(rem[cnt]))
+                        rem = rem[cnt + 1:]
+                    else:
+                        outs.append("~")
+                        rem = []
+                elif c == "u":
+                    if cnt < len(rem):
+                        outs.append(show(rem[len(rem) - 1 - cnt]))
+                        rem = rem[:len(rem) - 1 - cnt]
+                    else:
+                        outs.append("~")
+                        rem = []
+                else:
+                    outs.append("#%d" % len(rem))
+            return "it[%s]/%s" % (",".join(outs), show_pairs(rem))
         if n == "imut":
             x = u(1)
             self.m = {k: v + x for k, v in self.m.items()}
